@@ -1,6 +1,6 @@
 """Desugaring of bounded reflection.
 
-`getattr(obj, "name")`, `setattr(obj, "name", value)` and loops `for f in <constant tuple of strings>: ... getattr(x, f) ...`
+`getattr(obj, "name")` (also with a default: over-approximated by the plain load), `setattr(obj, "name", value)` and loops `for f in <constant tuple of strings>: ... getattr(x, f) ...`
 denote ordinary attribute accesses with a finite, syntactically known set of names.  They are rewritten into those
 accesses (loops unrolled) before the program model is built, so that every analysis sees plain attribute loads and
 stores.  Any other use of getattr / setattr stays in the tree and is refused by the reflection scan."""
@@ -81,7 +81,7 @@ class _Rewrite(ast.NodeTransformer):
 
     def visit_Call(self, node: ast.Call):
         node = self.generic_visit(node)
-        if isinstance(node.func, ast.Name) and node.func.id == "getattr" and len(node.args) == 2 and not node.keywords \
+        if isinstance(node.func, ast.Name) and node.func.id == "getattr" and len(node.args) in (2, 3) and not node.keywords \
                 and isinstance(node.args[1], ast.Constant) and isinstance(node.args[1].value, str) and node.args[1].value.isidentifier():
             self.count += 1
             return ast.copy_location(ast.Attribute(value=node.args[0], attr=node.args[1].value, ctx=ast.Load()), node)
